@@ -423,6 +423,13 @@ class Interp:
             for x, y in zip(xs, ys):
                 r = self.and_(r, self.equal(x, y))
             return r
+        if isinstance(a, dict) and isinstance(b, dict):
+            if set(a) != set(b):            # python dicts with concrete keys: same key set, equal values
+                return False
+            r = True
+            for k in a:
+                r = self.and_(r, self.equal(a[k], b[k]))
+            return r
         if isinstance(a, SetV) and isinstance(b, SetV):
             return self.set_term(a, b) == self.set_term(b, a)
         if isinstance(a, SeqV) or isinstance(b, SeqV):
@@ -692,7 +699,7 @@ class Interp:
             if full in consts:
                 return consts[full]
             return FuncRef("builtin", full)
-        if isinstance(obj, (PyList, SeqV, SetV, MapV, FloatV, tuple, dict, str, float)) or is_intlike(obj):
+        if isinstance(obj, (PyList, SeqV, SetV, MapV, FloatV, tuple, dict, str, float, slice)) or is_intlike(obj):
             return BoundMethod(obj, attr)
         if isinstance(obj, FuncRef) and obj.kind in ("builtin", "type"):
             return FuncRef("builtin", obj.name + "." + attr)
@@ -748,6 +755,11 @@ class Interp:
         if isinstance(obj, dict):
             if isinstance(idx, (str, int)) and idx in obj:
                 return obj[idx]
+            if is_sym_int(idx) and obj and all(isinstance(k, int) and not isinstance(k, bool) for k in obj):
+                # python dict with concrete int keys indexed by a SYMBOLIC int (additive, C22): case split over the keys
+                for k in obj:
+                    if self.ctx.branch(idx == k):
+                        return obj[k]
             raise RaiseExc("KeyError", node)
         if isinstance(obj, Rec) and "__getitem__" in obj.cls.methods:
             return self.call_method(obj, "__getitem__", [idx], {})
@@ -1036,7 +1048,7 @@ class Interp:
         if nm in ("set", "frozenset") :
             return isinstance(v, SetV)
         if nm == "slice":
-            return False
+            return isinstance(v, slice)
         if nm == "NoneType":
             return v is None
         if nm in self.world.classes or isinstance(v, Rec):
@@ -1532,10 +1544,29 @@ class Interp:
             if name == "pop":
                 if not o.items:
                     raise RaiseExc("IndexError", node)
+                if args and not isinstance(args[0], int):
+                    # symbolic index into a concrete-length list: one path per position (python: -len <= i < len, else IndexError)
+                    it, n = to_int_term(args[0]), len(o.items)
+                    for k in range(-n, n):
+                        if self.ctx.branch(it == k):
+                            return o.items.pop(k)
+                    raise RaiseExc("IndexError", node)
+                if args and not -len(o.items) <= int(args[0]) < len(o.items):
+                    raise RaiseExc("IndexError", node)
                 return o.items.pop(*args)
             if name == "copy":
                 return PyList(list(o.items))
             if name == "insert":
+                if not isinstance(args[0], int):
+                    # symbolic index: list.insert clamps, so the element lands at one of the len+1 positions
+                    it, n = to_int_term(args[0]), len(o.items)
+                    pos_t = z3.If(it < 0, z3.If(it + n < 0, z3.IntVal(0), it + n), z3.If(it > n, z3.IntVal(n), it))
+                    for k in range(n):
+                        if self.ctx.branch(pos_t == k):
+                            o.items.insert(k, args[1])
+                            return None
+                    o.items.insert(n, args[1])
+                    return None
                 o.items.insert(args[0], args[1])
                 return None
             if name == "reverse":
@@ -1617,6 +1648,9 @@ class Interp:
                 o.update(args[0] if args else {})
                 o.update(kw)
                 return None
+        if isinstance(o, slice) and name == "indices" and all(x is None or isinstance(x, int) for x in (o.start, o.stop, o.step)) \
+                and isinstance(args[0], int):
+            return tuple(o.indices(args[0]))
         xb = self.world.extra_builtins
         key = f"method:{name}"
         if key in xb:
@@ -1636,6 +1670,18 @@ class Interp:
 
     def s_Expr(self, s, env):
         if isinstance(s.value, ast.Constant):
+            return
+        if isinstance(s.value, ast.YieldFrom) and isinstance(env.get("yielded"), SeqV):
+            # `yield from xs` inside a generator under contract (additive, C22): every element of xs is yielded in order
+            xs = self.eval(s.value.value, env)
+            y = env["yielded"]
+            if isinstance(xs, SeqV):
+                y.term = s_concat(y.term, self.as_seq(xs, y).term)
+            elif isinstance(xs, (tuple, PyList)):
+                for x in (xs if isinstance(xs, tuple) else xs.items):
+                    y.term = s_snoc(y.term, self.world.box(x, y.elem))
+            else:
+                raise Unsupp("yield from a non-sequence")
             return
         if isinstance(s.value, ast.Yield):
             v = self.eval(s.value.value, env) if s.value.value is not None else None
@@ -1786,6 +1832,11 @@ class Interp:
                 obj[idx] = v
             elif isinstance(obj, Rec) and "__setitem__" in obj.cls.methods:
                 self.call_method(obj, "__setitem__", [idx, v], {})          # additive (C41)
+            elif type(obj) is MapV or getattr(obj, "plain_map", False):
+                # d[k] = v on a symbolic finite map (additive, C22): functional update of domain and values
+                k = self.world.box(idx, obj.key_t)
+                obj.dom = z3.Store(obj.dom, k, z3.BoolVal(True))
+                obj.val = z3.Store(obj.val, k, self.world.box(v, obj.val_t))
             else:
                 raise Unsupp("subscript assignment")
         else:
@@ -2194,7 +2245,7 @@ def assigned_names(body):
                 for t in n.targets:
                     if isinstance(t, ast.Subscript) and isinstance(t.value, ast.Name):
                         out.add(t.value.id)
-            elif isinstance(n, ast.Yield):
+            elif isinstance(n, (ast.Yield, ast.YieldFrom)):
                 out.add("yielded")
     return out
 
